@@ -25,6 +25,7 @@ type fnSpec struct {
 	Recv    string   // receiver type name ("" for a plain function)
 	Name    string   // Go function name
 	Fields  []string // declared interface for struct / pointer parameters: the paths the body may read, in parameter order
+	State   []string // ... and the paths it may also WRITE: parameters after Fields, and returned (as a tuple, before the results)
 	Props   []string // properties whose theorems use the model counterpart
 	NoProof bool     // printed (and usable by the self-test) but no equivalence proof has been written yet
 }
@@ -35,7 +36,7 @@ var fnList = []fnSpec{
 	{Coq: "VarInt_Bytes", File: "varint.go", Recv: "VarInt", Name: "Bytes", Props: []string{"C01", "C10", "C11"}},
 	{Coq: "VarInt_UpperLimitInc", File: "varint.go", Recv: "VarInt", Name: "UpperLimitInc", Props: []string{"C10", "C11"}},
 	{Coq: "PushDataPrefix", File: "bscript/oppushdata.go", Name: "PushDataPrefix", Props: []string{"C13", "C06", "C11"}},
-	{Coq: "MinPushSize", File: "bscript/script.go", Name: "MinPushSize", Props: []string{"C13"}, NoProof: true},
+	{Coq: "MinPushSize", File: "bscript/script.go", Name: "MinPushSize", Props: []string{"C13"}},
 	{Coq: "Flag_Has", File: "sighash/flag.go", Recv: "Flag", Name: "Has", Props: []string{"C02", "C03"}},
 	{Coq: "Flag_HasWithMask", File: "sighash/flag.go", Recv: "Flag", Name: "HasWithMask", Props: []string{"C02", "C03"}},
 	{Coq: "Script_IsP2PKH", File: "bscript/script.go", Recv: "Script", Name: "IsP2PKH", Fields: []string{"*s"}, Props: []string{"C14", "C11"}},
@@ -43,19 +44,53 @@ var fnList = []fnSpec{
 	{Coq: "Script_IsData", File: "bscript/script.go", Recv: "Script", Name: "IsData", Fields: []string{"*s"}, Props: []string{"C14", "C11"}},
 	{Coq: "isSmallIntOp", File: "bscript/script.go", Name: "isSmallIntOp", Props: []string{"C14"}},
 	{Coq: "ScriptFlag_HasFlag", File: "bscript/interpreter/scriptflag/scriptflag.go", Recv: "Flag", Name: "HasFlag", Props: []string{"C05"}},
-	{Coq: "ScriptFlag_HasAny", File: "bscript/interpreter/scriptflag/scriptflag.go", Recv: "Flag", Name: "HasAny", Props: []string{"C05"}, NoProof: true},
+	{Coq: "ScriptFlag_HasAny", File: "bscript/interpreter/scriptflag/scriptflag.go", Recv: "Flag", Name: "HasAny", Props: []string{"C05"}},
 	{Coq: "ParsedOpcode_IsDisabled", File: "bscript/interpreter/opcodeparser.go", Recv: "ParsedOpcode", Name: "IsDisabled", Fields: []string{"o.op.val"}, Props: []string{"C05"}},
 	{Coq: "ParsedOpcode_AlwaysIllegal", File: "bscript/interpreter/opcodeparser.go", Recv: "ParsedOpcode", Name: "AlwaysIllegal", Fields: []string{"o.op.val"}, Props: []string{"C05"}},
 	{Coq: "ParsedOpcode_IsConditional", File: "bscript/interpreter/opcodeparser.go", Recv: "ParsedOpcode", Name: "IsConditional", Fields: []string{"o.op.val"}, Props: []string{"C05"}},
 	{Coq: "ParsedOpcode_RequiresTx", File: "bscript/interpreter/opcodeparser.go", Recv: "ParsedOpcode", Name: "RequiresTx", Fields: []string{"o.op.val"}, Props: []string{"C05", "C13"}},
-	{Coq: "ParsedOpcode_enforceMinimumDataPush", File: "bscript/interpreter/opcodeparser.go", Recv: "ParsedOpcode", Name: "enforceMinimumDataPush", Fields: []string{"o.op.val", "o.Data"}, Props: []string{"C05"}, NoProof: true},
-	{Coq: "checkMinimalDataEncoding", File: "bscript/interpreter/number.go", Name: "checkMinimalDataEncoding", Props: []string{"C05"}, NoProof: true},
-	{Coq: "minimallyEncode", File: "bscript/interpreter/number.go", Name: "minimallyEncode", Props: []string{"C05"}, NoProof: true},
-	{Coq: "asBool", File: "bscript/interpreter/stack.go", Name: "asBool", Props: []string{"C05"}, NoProof: true},
+	{Coq: "ParsedOpcode_enforceMinimumDataPush", File: "bscript/interpreter/opcodeparser.go", Recv: "ParsedOpcode", Name: "enforceMinimumDataPush", Fields: []string{"o.op.val", "o.Data"}, Props: []string{"C05"}},
+	{Coq: "checkMinimalDataEncoding", File: "bscript/interpreter/number.go", Name: "checkMinimalDataEncoding", Props: []string{"C05"}},
+	{Coq: "minimallyEncode", File: "bscript/interpreter/number.go", Name: "minimallyEncode", Props: []string{"C05"}},
+	{Coq: "asBool", File: "bscript/interpreter/stack.go", Name: "asBool", Props: []string{"C05"}},
 	{Coq: "fromBool", File: "bscript/interpreter/stack.go", Name: "fromBool", Props: []string{"C05"}},
-	{Coq: "thread_isBranchExecuting", File: "bscript/interpreter/thread.go", Recv: "thread", Name: "isBranchExecuting", Fields: []string{"t.condStack"}, Props: []string{"C05"}, NoProof: true},
-	{Coq: "thread_shouldExec", File: "bscript/interpreter/thread.go", Recv: "thread", Name: "shouldExec", Fields: []string{"t.afterGenesis", "t.condStack", "t.earlyReturnAfterGenesis", "pop.op.val"}, Props: []string{"C05"}, NoProof: true},
-	{Coq: "verifyLockTime", File: "bscript/interpreter/operations.go", Name: "verifyLockTime", Props: []string{"C05"}, NoProof: true},
+	{Coq: "thread_isBranchExecuting", File: "bscript/interpreter/thread.go", Recv: "thread", Name: "isBranchExecuting", Fields: []string{"t.condStack"}, Props: []string{"C05"}},
+	{Coq: "thread_shouldExec", File: "bscript/interpreter/thread.go", Recv: "thread", Name: "shouldExec", Fields: []string{"t.afterGenesis", "t.condStack", "t.earlyReturnAfterGenesis", "pop.op.val"}, Props: []string{"C05"}},
+	{Coq: "verifyLockTime", File: "bscript/interpreter/operations.go", Name: "verifyLockTime", Props: []string{"C05"}},
+	// the interpreter's stack (stack.go): Fields are read, State is read and written (funcs_interp.go)
+	stackFn("Depth", nil, false, "C05"),
+	stackFn("PushByteArray", nil, true, "C05", "C08"),
+	stackFn("PushInt", nil, true, "C05", "C08"),
+	stackFn("PushBool", nil, true, "C05", "C08"),
+	stackFn("nipN", nil, true, "C05", "C08"),
+	stackFn("PopByteArray", nil, true, "C05", "C08"),
+	stackFn("PopInt", fnNumFields, true, "C05"),
+	stackFn("PopBool", nil, true, "C05"),
+	stackFn("PeekByteArray", nil, false, "C05", "C08"),
+	stackFn("PeekInt", fnNumFields, false, "C05"),
+	stackFn("PeekBool", nil, false, "C05"),
+	stackFn("NipN", nil, true, "C05", "C08"),
+	stackFn("Tuck", nil, true, "C05", "C08"),
+	stackFn("DropN", nil, true, "C05", "C08"),
+	stackFn("DupN", nil, true, "C05", "C08"),
+	stackFn("RotN", nil, true, "C05", "C08"),
+	stackFn("SwapN", nil, true, "C05", "C08"),
+	stackFn("OverN", nil, true, "C05", "C08"),
+	stackFn("PickN", nil, true, "C05", "C08"),
+	stackFn("RollN", nil, true, "C05", "C08"),
+}
+
+var fnNumFields = []string{"s.maxNumLength", "s.verifyMinimalData", "s.afterGenesis"}
+
+// stackFn: a method of `stack`; writes = the method changes s.stk.
+func stackFn(name string, fields []string, writes bool, props ...string) fnSpec {
+	sp := fnSpec{Coq: "stack_" + name, File: "bscript/interpreter/stack.go", Recv: "stack", Name: name, Props: props}
+	if writes {
+		sp.Fields, sp.State = fields, []string{"s.stk"}
+	} else {
+		sp.Fields = append(append([]string{}, fields...), "s.stk")
+	}
+	return sp
 }
 
 type fnStatus struct {
@@ -95,7 +130,7 @@ func fnRun(repo string) *fnResult {
 	sb.WriteString("(* Shallow Gallina renderings of small pure Go functions, printed by harness/gen/funcs*.go over lib/GoSem.v.\n" +
 		"   Go variables are prefixed v_; t_ names are temporaries.  Struct and pointer parameters are replaced by the fields\n" +
 		"   the body reads (a nil receiver is outside the definitions). *)\n")
-	sb.WriteString("From Coq Require Import List ZArith Bool.\nFrom Coq Require Import Strings.Byte.\nFrom GoBT Require Import lib.Bytes lib.GoSem.\nImport ListNotations.\nLocal Open Scope Z_scope.\n\n")
+	sb.WriteString("From Coq Require Import List ZArith Bool.\nFrom Coq Require Import Strings.Byte.\nFrom GoBT Require Import lib.Bytes lib.GoSem lib.GoInterp.\nImport ListNotations.\nLocal Open Scope Z_scope.\n\n")
 	res := &fnResult{status: map[string]fnStatus{}}
 	for _, sp := range fnList {
 		st := fnStatus{ProofFile: "proofs/GenFuncs_" + sp.Coq + ".v", ExportFile: "Properties/Gen_" + sp.Coq + ".v", Properties: sp.Props, Go: sp.File}
@@ -158,8 +193,14 @@ func fnTranslate(ld *fnLoader, sp fnSpec) (def, where, reason string) {
 	if fd.Body == nil {
 		return "", where, "function has no body"
 	}
-	t := &fnTr{pkg: pkg, spec: sp, vars: map[interface{}]*fnVar{}, names: map[string]int{}, objs: map[types.Object]string{}}
-	return t.function(fd), where, ""
+	t := &fnTr{pkg: pkg, spec: sp, vars: map[interface{}]*fnVar{}, names: map[string]int{}, objs: map[types.Object]string{},
+		ld: ld, dead: map[int]bool{}, rootIdx: map[string]int{}, errNil: map[interface{}]bool{}}
+	def = t.function(fd)
+	if len(t.erased) > 0 {
+		def = "(* erased, being no-ops for the stack value: the debugger / state-handler callbacks " + strings.Join(fnSortedKeys(t.erased), ", ") + " *)\n" + def
+	}
+	ld.done[fnKey(pkg.pkg.Path(), sp.Recv, sp.Name)] = &fnDone{spec: sp, args: t.args, state: t.state, results: t.results, rootIdx: t.rootIdx}
+	return def, where, ""
 }
 
 // sorted keys helper for deterministic output
